@@ -98,6 +98,15 @@ def run(case, stop_on=('unpred', 'skip'), quirks=()):
             # accepted outcomes: NotImplementedError from a documented site with core state unchanged, or Undefined taken
             if excs[i] is not None and target.escape_ok(excs[i]):
                 d = {k: (prev.get(k), v) for k, v in post.items() if k not in FAULT_KEYS and prev.get(k) != v}
+                # transfers the instruction had architecturally completed before it reached the unimplemented hook (earlier words of an
+                # LDM/LDRD/STM whose later word faults, the fault report needing the hook) are not "state changed": accept exactly the
+                # values the reference had produced at the point where it hit the same hook
+                for k in list(d):
+                    if k.startswith('mem') and k[3:].isdigit():
+                        if bytes(M.mem[int(k[3:])][2]) == post[k]:
+                            del d[k]
+                    elif M.s.get(k) == post[k] or k in M.unknown:
+                        del d[k]
                 if d:
                     res.diffs = d
                     res.status = 'notimpl-state-changed'
